@@ -42,6 +42,8 @@ type vC14PsCase struct {
 	Peers  []vC14PsPeer `json:"peers,omitempty"`
 	Query  []string     `json:"query"`
 	Perm2  int          `json:"perm2,omitempty"` // seed of the order in which the second host is asked (0: same order)
+	// save: what the file holds before the save (an earlier, usually longer, save: the file is rewritten at every shutdown)
+	Prev []string `json:"prev,omitempty"`
 }
 
 // deterministic byte stream for key generation
@@ -391,6 +393,11 @@ func (rig *vc14PsRig) runSave(out *vOut, c vC14PsCase) {
 		}
 	}
 	path := rig.file()
+	if len(c.Prev) > 0 {
+		if err := os.WriteFile(path, []byte(strings.Join(c.Prev, "\n")+"\n"), 0644); err != nil {
+			panic(err)
+		}
+	}
 	h1 := rig.host(0)
 	defer h1.Close()
 	pm1 := New(context.Background(), h1, path)
@@ -642,6 +649,15 @@ func (rig *vc14PsRig) genFile(r *vRand) vC14PsCase {
 
 func (rig *vc14PsRig) genSave(r *vRand) vC14PsCase {
 	c := vC14PsCase{Kind: "save"}
+	if r.chance(40) {
+		// the file of an earlier shutdown, with more (and other) peers than are saved now
+		for k, m := 0, r.rng(1, 12); k < m; k++ {
+			c.Prev = append(c.Prev, fmt.Sprintf("/ip4/10.9.%d.%d/tcp/%d/p2p/%s", r.intn(250), r.intn(250), 9000+r.intn(900), peer.Encode(rig.peers[r.intn(len(rig.peers))])))
+		}
+		if r.chance(30) {
+			c.Prev = append(c.Prev, "# a comment line that is longer than anything the save writes ........................................................................")
+		}
+	}
 	np := r.rng(1, 7)
 	perm := []int{}
 	for i := range rig.peers {
